@@ -87,6 +87,7 @@ type storeOp struct {
 	writes uint32
 	tag    string // "add", "merge", "copy", "clear", "reweight", "codec", "proto", "read"
 	slot   int
+	src    int
 	factor float64
 }
 
@@ -173,7 +174,7 @@ func opMerge(a, b int) storeOp {
 		mod:  func(w *StoreWorld) { w.M[a].MergeFrom(w.M[b]) }}
 }
 func opCopy(a, b int) storeOp {
-	return storeOp{name: fmt.Sprintf("%s = %s.Copy()", slotName(a), slotName(b)), tag: "copy", writes: 1 << uint(a),
+	return storeOp{name: fmt.Sprintf("%s = %s.Copy()", slotName(a), slotName(b)), tag: "copy", writes: 1 << uint(a), slot: a, src: b,
 		real: func(st []store.Store, _ []Kind, _ bool) { st[a] = st[b].Copy() },
 		mod: func(w *StoreWorld) {
 			w.K[a] = w.K[b]
@@ -419,18 +420,19 @@ func digest(s string) uint64 {
 
 // StoreScenarioSpec is the declarative form of one store-world scenario.
 type StoreScenarioSpec struct {
-	Name     string
-	Property string // property whose clauses the state oracle reports
-	Kinds    []Kind
-	Ops      []storeOp
-	Seeds    []mc.Seed[*StoreWorld]
-	Depth    int
-	Twin     bool   // C15: main world vs twin world
-	Frame    string // frame clause name ("" = off)
-	ModelClause bool // compare every slot with its reference model
-	SpanClause  bool // bounded kinds: span and bin count <= N
-	LastTags []string
-	Reweights bool // C16 transition oracle on reweight operations
+	Name        string
+	Property    string // property whose clauses the state oracle reports
+	Kinds       []Kind
+	Ops         []storeOp
+	Seeds       []mc.Seed[*StoreWorld]
+	Depth       int
+	Twin        bool   // C15: main world vs twin world
+	Frame       string // frame clause name ("" = off)
+	ModelClause bool   // compare every slot with its reference model
+	SpanClause  bool   // bounded kinds: span and bin count <= N
+	LastTags    []string
+	Reweights   bool // C16 transition oracle on reweight operations
+	CopyClause  bool // C14: a fresh copy is observed identical to its original
 }
 
 func storeSeed(name string, ops ...storeOp) mc.Seed[*StoreWorld] {
@@ -532,6 +534,18 @@ func (sp *StoreScenarioSpec) Build() *mc.Scenario[*StoreWorld] {
 	}
 	sc.Explain = func(w *StoreWorld, slot int) string {
 		return ObserveStore(w.R[slot], w.M[slot].Ranks())
+	}
+	if sp.CopyClause {
+		sc.WantTransition = func(op int) bool { return sp.Ops[op].tag == "copy" }
+		sc.Transition = func(parent, child *StoreWorld, op int) []mc.Fail {
+			a, b := sp.Ops[op].slot, sp.Ops[op].src
+			ranks := parent.M[b].Ranks()
+			got, want := ObserveStore(child.R[a], ranks), ObserveStore(parent.R[b], ranks)
+			if got != want {
+				return []mc.Fail{{Clause: "C14.copy-equals-original", Detail: fmt.Sprintf("%s store: the copy is not observed like its original\n  copy:     %s\n  original: %s", parent.K[b], got, want)}}
+			}
+			return nil
+		}
 	}
 	if sp.Reweights {
 		factors := map[int]float64{}
